@@ -46,6 +46,12 @@ def cases(tier, rng):
         kind = None
         if rng.random() < 0.25:
             kind = L.mutate_prev(rng, h, rng.choice(['self', 'newer', 'newer', 'len', 'len1', 'huge', 'zero', 'obj', 'lenm1']))
+        if kind is None and rng.random() < 0.04:
+            # garbage glued in front of some revision's xref stream, startxref or the newer /Prev pointing at it
+            sr = [rev for rev in h if rev.xkind == 'stream']
+            if sr:
+                rng.choice(sr).opts['junk_before_xstm'] = rng.choice([b'1 0 obj 7 ', b'1 0 obj 7\n', b'88 0 obj <</A 1>> ', b'2 0 obj\n'])
+                kind = 'other'
         line = L.one_case(rng, h, L.gen_garbage(rng) if rng.random() < 0.3 else b'', kind)
         if line:
             out.append(line)
